@@ -86,7 +86,9 @@ META = {
             "(MJ/Model/MemoConc.lean) has acquire / look / create+insert / release as separate steps, an explicit mutex and an "
             "outside world that may change the loader's answers at any point; concurrent_lookups_linearizable: every schedule "
             "is equivalent to the sequential history of its linearisation points (store = Store.run of it, every thread's "
-            "answers = the sequential answers, program order kept); concurrent_mutual_exclusion is derived, "
+            "answers = the sequential answers, program order kept); concurrent_mutual_exclusion is derived; concurrent_progress: "
+            "while any thread has a lookup left some thread can move (the mutex is always held by a thread inside its critical "
+            "section: no deadlock at this granularity); "
             "without_mutex_answers_diverge shows what the lock is for; memo_map_source_as_modelled ties the model to the "
             "source of memo-map (version of Cargo.lock, read from the cargo registry: get_or_try_insert locks first and "
             "keeps the lock over look-up, creator and insert; whatever replaces or removes needs &mut self). "
